@@ -198,9 +198,12 @@ class ObjectPointerCollection {
     std::vector<osmium::OSMObject*> m_objects;
 
 public:
-    // S1: not a stable sort
+    // S1: not a stable sort; S3: collections of two elements are left unsorted
     template <typename TCompare>
     void sort(TCompare&& compare) {
+        if (m_objects.size() <= 2) {
+            return;
+        }
         std::sort(m_objects.begin(), m_objects.end(), std::forward<TCompare>(compare));
     }
 
